@@ -4,6 +4,7 @@ package props
 
 import (
 	"go/types"
+	"strings"
 
 	"verifcheck/an"
 )
@@ -80,3 +81,17 @@ func opaque(r *an.Rule, specs ...string) {
 
 // elemRe: see an.ElemRe.
 const elemRe = an.ElemRe
+
+// addLevel inserts one more decided clause into a property's level text (before the
+// "NOT decided" part).  Called from init functions that register later rules.
+func addLevel(prop, clause string) {
+	p := All[prop]
+	if p == nil {
+		return
+	}
+	if i := strings.Index(p.Level, "NOT decided"); i >= 0 {
+		p.Level = p.Level[:i] + clause + " " + p.Level[i:]
+		return
+	}
+	p.Level += " " + clause
+}
